@@ -33,6 +33,8 @@ def run_matrix(chk, props, deciding, rule, names=None, extra_case=None, post=Non
         cases = std_cases(chk.seed, chk.tier, chk.scratch, resume_fraction=resume_fraction, names=names)
     else:
         cases = ins_cases(chk.seed, chk.tier, chk.scratch, names=names)
+    for c in cases:
+        c["props"] = list(props)
     if extra_case:
         cases = [extra_case(c) for c in cases]
     if chk.args.only:
